@@ -46,6 +46,19 @@ def prob_specs(draw, names=NAMES, pops=True, do=True, marks=True, cond=True, mix
         for _ in ch + pa:
             m = draw(st.integers(0, len(rest)))
             vdo.append([[n, draw(st.booleans()) if marks else False] for n in sorted(draw(st.permutations(rest))[:m])])
+        if draw(st.integers(0, 2)) == 0:
+            # one variable a second time, in a different world (Y_x next to Y_x' or next to the factual Y)
+            k = draw(st.integers(0, len(ch) + len(pa) - 1))
+            n = (ch + pa)[k]
+            other = [[m, not s_] for m, s_ in vdo[k]] if vdo[k] and draw(st.booleans()) else ([] if vdo[k] else [[rest[0], draw(st.booleans()) if marks else False]])
+            if sorted(map(tuple, other)) != sorted(map(tuple, vdo[k])):
+                if pa and draw(st.booleans()):
+                    spec["pa"].append([n, mark()])
+                    vdo.append(other)
+                else:
+                    spec["ch"].append([n, mark()])
+                    vdo.insert(len(spec["ch"]) - 1, other)
+                spec["twin"] = True
         spec["vdo"] = vdo
     return spec
 
@@ -260,7 +273,11 @@ def permute_presentation(s, rng):
     t = s["t"]
     if t == "P":
         if s.get("vdo"):
-            return dict(s)
+            # children and parents are shuffled together with their own subscript sets
+            nch = len(s["ch"])
+            chz = rng.shuffle(list(zip(s["ch"], s["vdo"][:nch])))
+            paz = rng.shuffle(list(zip(s["pa"], s["vdo"][nch:])))
+            return {**s, "ch": [c for c, _ in chz], "pa": [p for p, _ in paz], "vdo": [rng.shuffle(v) for _, v in chz] + [rng.shuffle(v) for _, v in paz]}
         return {**s, "ch": rng.shuffle(s["ch"]), "pa": rng.shuffle(s["pa"]), "do": rng.shuffle(s["do"])}
     if t == "prod":
         xs = rng.shuffle([permute_presentation(x, rng) for x in s["xs"]])
